@@ -471,8 +471,13 @@ func genDangling(r *RNG, k int) *Case {
 	var entries []string
 	type item struct{ text, prefix, name, msg string }
 	var items []item
+	oneMap := k <= 4 && r.Chance(75) // all tied entries in the map of one prefix, spaced (see arrange)
 	for i := 0; i < k; i++ {
-		switch r.Intn(3) {
+		kind := r.Intn(3)
+		if oneMap {
+			kind = 0
+		}
+		switch kind {
 		case 0:
 			a, gr := g.name("acl"), g.name("g")
 			line := fmt.Sprintf("access-list %s extended permit ip object-group %s any4", a, gr)
@@ -491,11 +496,22 @@ func genDangling(r *RNG, k int) *Case {
 		}
 	}
 	// entries without error
-	for i := r.Intn(3); i > 0; i-- {
+	npad := 0
+	mkPad := func() item {
+		npad++
 		a := g.name("ok")
-		items = append(items, item{fmt.Sprintf("access-list %s extended permit ip host 1.1.1.%d any4\n", a, i), "access-list", a, ""})
+		return item{fmt.Sprintf("access-list %s extended permit ip host 1.1.1.%d any4\n", a, npad), "access-list", a, ""}
 	}
-	Shuffle(r, items)
+	var pads []item
+	for i := r.Intn(3); i > 0; i-- {
+		pads = append(pads, mkPad())
+	}
+	if oneMap {
+		items = arrange(r, items, pads, mkPad)
+	} else {
+		items = append(items, pads...)
+		Shuffle(r, items)
+	}
 	for _, it := range items {
 		dev.WriteString(it.text)
 		entries = append(entries, fmt.Sprintf("%s;%s;%s", it.prefix, it.name, it.msg))
@@ -576,6 +592,35 @@ func genIPTOptions(r *RNG, k int) *Case {
 // Linux: raw file adds several new tables and new chains → Info messages on stderr.
 func genLinuxRaw(r *RNG, k int) *Case {
 	g := newGen(r)
+	if k <= 4 && r.Chance(75) {
+		// spaced (see arrange): k new tables among 8 tables of the raw file; the other tables exist
+		// on the device side as well and cause no message
+		var tied []string
+		for i := 0; i < k; i++ {
+			tied = append(tied, g.name("t"))
+		}
+		isPad := map[string]bool{}
+		order := arrange(r, tied, nil, func() string { n := g.name("p"); isPad[n] = true; return n })
+		if len(isPad) > 0 {
+			dev := "*filter\n:INPUT DROP\n-A INPUT -s 10.1.1.1 -j ACCEPT\nCOMMIT\n"
+			var raw strings.Builder
+			var entries []string
+			for _, t := range order {
+				fmt.Fprintf(&raw, "*%s\n:PREROUTING ACCEPT\nCOMMIT\n", t)
+				if isPad[t] {
+					dev += fmt.Sprintf("*%s\n:PREROUTING ACCEPT\nCOMMIT\n", t)
+				} else {
+					entries = append(entries, fmt.Sprintf("%s ;Adding all chains of table \"%s\"", t, t))
+				}
+			}
+			return &Case{
+				Family: "linux_raw_new", Pred: "linux_raw_adds_several_tables_or_chains",
+				Files: map[string]string{"dev": dev, "dev.raw": raw.String(), "spoc": dev, "spoc.info": `{"model":"Linux"}`},
+				Args:  []string{"dev", "spoc"}, Ties: k, Check: "log",
+				Model: []string{"log\t" + strings.Join(entries, "|")},
+			}
+		}
+	}
 	tables := []string{"nat", "mangle", "raw", "security"}
 	Shuffle(r, tables)
 	nt := r.Intn(len(tables) + 1)
@@ -627,13 +672,16 @@ func genLinuxRedefine(r *RNG, k int) *Case {
 		dev += ":" + c + " -\n"
 	}
 	dev += "-A INPUT -s 10.1.1.1 -j ACCEPT\nCOMMIT\n"
-	rc := append([]string(nil), chains...)
-	Shuffle(r, rc)
+	isPad := map[string]bool{}
+	// pads: chains that only the raw file has (added with an Info line, no abort); see arrange
+	rc := arrange(r, append([]string(nil), chains...), nil, func() string { n := g.name("n"); isPad[n] = true; return n })
 	raw := "*filter\n"
 	var entries []string
 	for _, c := range rc {
 		raw += ":" + c + " -\n"
-		entries = append(entries, fmt.Sprintf("filter %s;Must not redefine chain \"%s\" of table \"filter\" from rawdata", c, c))
+		if !isPad[c] {
+			entries = append(entries, fmt.Sprintf("filter %s;Must not redefine chain \"%s\" of table \"filter\" from rawdata", c, c))
+		}
 	}
 	raw += "COMMIT\n"
 	return &Case{
@@ -730,17 +778,34 @@ func genTunnelGroups(r *RNG, k int) *Case {
 	}
 	sort.Strings(names)
 	Shuffle(r, names)
+	g := newGen(r)
+	isPad := map[string]bool{}
+	mkPad := func() string { // a tunnel-group whose name is not an IP address is no anchor: unchanged, no output
+		n := g.name("tg")
+		isPad[n] = true
+		return n
+	}
+	names = arrange(r, names, nil, mkPad)
 	var dev, spoc strings.Builder
 	dev.WriteString("interface Ethernet0/1\n nameif outside\n")
 	spoc.WriteString("interface Ethernet0/1\n nameif outside\n")
 	var entries []string
 	for _, ip := range names {
 		fmt.Fprintf(&dev, "tunnel-group %s type ipsec-l2l\ntunnel-group %s ipsec-attributes\n peer-id-validate nocheck\n", ip, ip)
-		entries = append(entries, fmt.Sprintf("%s;tunnel-group %s ipsec-attributes", ip, ip))
+		if !isPad[ip] {
+			entries = append(entries, fmt.Sprintf("%s;tunnel-group %s ipsec-attributes", ip, ip))
+		}
 	}
-	Shuffle(r, names)
-	for _, ip := range names {
-		fmt.Fprintf(&spoc, "tunnel-group %s type ipsec-l2l\ntunnel-group %s ipsec-attributes\n peer-id-validate req\n", ip, ip)
+	spocNames := append([]string(nil), names...)
+	if len(isPad) == 0 {
+		Shuffle(r, spocNames)
+	}
+	for _, ip := range spocNames {
+		val := "req"
+		if isPad[ip] {
+			val = "nocheck"
+		}
+		fmt.Fprintf(&spoc, "tunnel-group %s type ipsec-l2l\ntunnel-group %s ipsec-attributes\n peer-id-validate %s\n", ip, ip, val)
 	}
 	return &Case{
 		Family: "asa_tunnel_groups", Pred: "several_changed_anchors_of_one_prefix",
@@ -753,6 +818,32 @@ func genTunnelGroups(r *RNG, k int) *Case {
 // ASA raw file with k unreferenced object-groups: sorted warnings.
 func genRawUnused(r *RNG, k int) *Case {
 	g := newGen(r)
+	if k <= 4 && r.Chance(75) {
+		// spaced (see arrange): the map isReferenced is filled in ascending (prefix, name) order of the raw
+		// commands; k unused group-policies at slots 0, 8/k, … among 8 group-policies, the others are
+		// referenced by a username (anchor, visited later) and get no warning
+		var raw strings.Builder
+		var entries []string
+		step := 8 / k
+		for slot := 0; slot < 8; slot++ {
+			n := fmt.Sprintf("gp%d%s", slot, g.name("x"))
+			fmt.Fprintf(&raw, "group-policy %s internal\n", n)
+			if slot%step == 0 && slot/step < k {
+				msg := fmt.Sprintf("WARNING>>> Ignoring unused 'group-policy %s' in raw", n)
+				entries = append(entries, msg+";"+msg)
+			} else {
+				u := g.name("u")
+				fmt.Fprintf(&raw, "username %s nopassword\nusername %s attributes\n vpn-group-policy %s\n", u, u, n)
+			}
+		}
+		base := "interface Ethernet0/1\n nameif outside\n"
+		return &Case{
+			Family: "asa_raw_unused", Pred: "several_unused_objects_in_raw",
+			Files: map[string]string{"dev": base, "dev.raw": raw.String(), "spoc": base, "spoc.info": asaInfo},
+			Args:  []string{"dev", "spoc"}, Ties: k, Check: "lines", Aux: map[string]string{"stream": "stderr", "prefix": "WARNING>>> Ignoring unused"},
+			Model: []string{"log\t" + strings.Join(entries, "|")},
+		}
+	}
 	var raw strings.Builder
 	var entries []string
 	for i := 0; i < k; i++ {
